@@ -6,6 +6,7 @@ from .. import rules_tab as rt
 from ..loader import walk_own, norm_stmt, AnalysisError
 from .common import add_fwd, add_checks, calls_in, ret_deps_by_node
 from .common import check as ob
+from ..canon import Canon
 from . import C02, C10
 
 EXPLANATION = (
@@ -28,33 +29,30 @@ MOD_FIELDS = ['labile_mods', 'unknown_mods', 'nterm_mods', 'intervals', 'interna
 
 
 def accumulators(ctx, rep, clause):
+    """the three accumulators (mass fast path, composition, numeric shifts split off the composition path) resolve
+    modifications from the same fields, and each reads the labile modifications only under a test of the ion type"""
+    from ..guards import dominating_tests
     an, program = ctx.analyzer, ctx.program
     n_lab = 0
-    for fq, fields in ((MASS, MOD_FIELDS + ['static_mods']), (SEQ_COMP, MOD_FIELDS + ['static_mods']),
-                       (POP_DELTA, MOD_FIELDS)):
+    for fq, callee, fields in ((MASS, 'mod_mass', MOD_FIELDS), (SEQ_COMP, 'mod_comp', MOD_FIELDS),
+                               (POP_DELTA, '_parse_mod_delta_mass_only', MOD_FIELDS)):
         f = program.func(fq)
-        recs = an.acc_records.get((fq, ()))
-        if recs is None:
-            raise AnalysisError(f'no accumulation records for {fq}')
-        seen = set()
-        tags_all = set()
-        for st, deps, pdeps in recs:
-            if id(st) in seen:
-                continue
-            seen.add(id(st))
-            tags = {d[1:] for d in (deps | pdeps) if d.startswith('@')}
-            tags_all |= tags
-            if _under_labile_loop(f, st):
-                n_lab += 1
-                ob(rep, 'SIB-guard', fq, f'labile contribution `{norm_stmt(st)}` is guarded by ion_type',
-                   'ion_type' in pdeps, 'control dependent on the ion type (precursor only)',
-                   'the labile modifications are accumulated for every ion type: the other calculator counts them '
-                   'for the precursor only, so the two disagree for fragment ions', f.loc(st), clause)
+        srcs, sites = C02.term_sources(f, callee, None, program, with_sites=True)
         for fld in fields:
-            ob(rep, 'FLD', fq, f'accumulates field {fld}', fld in tags_all,
-               'the field feeds an accumulating store', f'field {fld} never feeds an accumulating store: '
+            ob(rep, 'FLD', fq, f'accumulates field {fld}', fld in srcs,
+               'the field feeds the resolver of this calculator', f'field {fld} never reaches {callee} here: '
                f'modifications written there are ignored by this calculator only', f.loc(), clause)
-    rep.floor('SIB-guard', 'labile accumulation statements', n_lab, 3)
+        for g, node in sites.get('labile_mods', []):
+            # only reads that feed the resolver (not has_labile_mods() tests or pops)
+            n_lab += 1
+            cg = Canon(g.node)
+            tests = [norm_stmt(cg.resolve(t)) for t, _pol in dominating_tests(g.node, node)]
+            guarded = any('ion_type' in t for t in tests)
+            ob(rep, 'SIB-guard', g.fq, f'the labile modifications are read under a test of the ion type (in {fq.split(":")[1]})',
+               guarded, 'control dependent on the ion type (precursor only)',
+               'the labile modifications are accumulated for every ion type: the other calculator counts them '
+               'for the precursor only, so the two disagree for fragment ions', g.loc(node), clause)
+    rep.floor('SIB-guard', 'reads of the labile modifications that feed a resolver', n_lab, 3)
     # _pop_delta_mass_mods skips static rules: accepted only because its sole caller condenses them first
     callers = [k[0] for k, recs in an.calls.items() if k[1] == () and
                any(r.callee is not None and r.callee.fq == POP_DELTA for r in recs)]
@@ -89,8 +87,8 @@ def _under_labile_loop(f, st) -> bool:
 def source_parity(ctx, rep, clause):
     """the mass accumulator and the composition accumulator resolve modifications from the same places"""
     program = ctx.program
-    a = C02.term_sources(program.func(MASS), 'mod_mass')
-    b = C02.term_sources(program.func(SEQ_COMP), 'mod_comp')
+    a = C02.term_sources(program.func(MASS), 'mod_mass', None, program)
+    b = C02.term_sources(program.func(SEQ_COMP), 'mod_comp', None, program)
     for kind in C02.SOURCE_KINDS:
         ob(rep, 'SIB-source', MASS if kind not in a else SEQ_COMP, f'both calculators resolve modifications from {kind}',
            kind in a and kind in b, f'mass: {len(a.get(kind, []))} site(s), composition: {len(b.get(kind, []))} site(s)',
@@ -165,7 +163,7 @@ def unwrap_sites(ctx, rep, clause):
                    (not bare) or in_static, 'Mod object' if not bare else 'static rule (multiplier restricted to 1)',
                    f'`{norm_stmt(node)}` unwraps .val before the resolver sees the multiplier: `[X]^2` at this position '
                    f'is counted once by this calculator and twice by the other', f.loc(node), clause)
-    rep.floor('SIB-mult', 'resolver call sites in the two accumulators', n, 16)
+    rep.floor('SIB-mult', 'resolver call sites in the two accumulators', n, 4)
 
 
 def definition_pairing(ctx, rep, clause):
